@@ -1,7 +1,7 @@
 (* C11 - normalize resolves "." and ".." lexically, idempotently, never above the root. *)
 From Coq Require Import List NArith Bool.
 Import ListNotations.
-From TP Require Import Core Path Unix Win Spec C11Proofs.
+From TP Require Import Core Path Unix Win Spec GenJoin WinSimple C11Proofs C11WinProofs.
 
 (* Unix, every byte string: the normalised path, read back, is the lexical fold (Spec.nfold) of the
    input's components: "." dropped, each ".." cancels the nearest preceding normal component and
@@ -29,9 +29,28 @@ Theorem C11_fold_is_nfold : forall (cs acc : list comp),
   map WC (norm_fold comp c_is_normal c_is_parent c_is_current cs acc) = nfold (map WC cs) (map WC acc).
 Proof. exact norm_fold_nfold. Qed.
 Print Assumptions C11_fold_is_nfold.
-(* C11_windows_partial: for Windows the byte-level re-push of the folded components (w_push after a
-   prefix) is not proved equal to the fold; that half is decided by oracle_c11 on every explored
-   well-formed path (fold, read-back, flags, idempotence, primary separator only). *)
+(* Windows, every prefix-free path (not starting with two separators) whose names carry no drive
+   look-alike (names_plain: every normal name n has noprefix n -- in particular every name without ':'):
+   the normalised path reads back as the lexical fold, normalising again returns the same bytes, and the
+   result is rooted exactly when the input is *)
+Theorem C11_windows_fold_plain : forall l : list N, noprefix l = true -> names_plain l ->
+  wspec (w_normalize l) = nfold (wspec l) [].
+Proof. exact w_normalize_plain. Qed.
+Theorem C11_windows_idempotent_plain : forall l : list N, noprefix l = true -> names_plain l ->
+  w_normalize (w_normalize l) = w_normalize l.
+Proof. exact w_normalize_plain_idem. Qed.
+Theorem C11_windows_root_plain : forall l : list N, noprefix l = true -> names_plain l ->
+  g_rooted (wsep true) (w_normalize l) = g_rooted (wsep true) l.
+Proof. exact w_normalize_plain_root. Qed.
+Print Assumptions C11_windows_fold_plain.
+Print Assumptions C11_windows_idempotent_plain.
+Print Assumptions C11_windows_root_plain.
+(* the hypothesis on names is needed: a name that looks like a drive replaces the buffer when re-pushed *)
+Lemma C11_names_needed : w_normalize [97;92;99;58;100] = [99;58;100].        (* a\c:d -> c:d *)
+Proof. vm_compute. reflexivity. Qed.
+(* C11_windows_partial: for Windows paths with a prefix (drive, UNC, verbatim, device) the byte-level
+   re-push of the folded components is not proved equal to the fold; that part is decided by oracle_c11
+   on every explored well-formed path (fold, read-back, flags, idempotence, primary separator only). *)
 
 Example C11_example :
   u_normalize [47;46;46;47;97;47;46;47;46;46;47;46;46;47;98] = [47;98]
